@@ -72,7 +72,7 @@ theorem reader_loop_facts :
     Gen.decoderFacts.initResolve = "switch { case $1 == FirstOffset: $1 = $2 case $1 == LastOffset: $1 = $3 case $1 < $2: $1 = $2 }" ∧
     Gen.decoderFacts.initSeeksResolved = true ∧ Gen.decoderFacts.runResetsAttempt = true ∧
     Gen.decoderFacts.runErrcountInc = true ∧
-    Gen.decoderFacts.loopBranches = "$1 == nil -> errcount=0,continue | errors.Is($1, io.EOF) -> errcount=0,continue | errors.Is($1, io.ErrNoProgress) -> close,break-loop | errors.Is($1, UnknownTopicOrPartition) -> close,break-loop | errors.Is($1, NotLeaderForPartition) -> close,break-loop | errors.Is($1, RequestTimedOut) -> errcount=0,continue | errors.Is($1, OffsetOutOfRange) ->  | errors.Is($1, context.Canceled) -> close,return | errors.Is($1, errUnknownCodec) -> sendError,break-loop | default -> " := by
+    Gen.decoderFacts.loopBranches = "$1 == nil -> errcount=0,continue | errors.Is($1, NotLeaderForPartition) -> close,break-loop | errors.Is($1, OffsetOutOfRange) ->  | errors.Is($1, RequestTimedOut) -> errcount=0,continue | errors.Is($1, UnknownTopicOrPartition) -> close,break-loop | errors.Is($1, context.Canceled) -> close,return | errors.Is($1, errUnknownCodec) -> sendError,break-loop | errors.Is($1, io.EOF) -> errcount=0,continue | errors.Is($1, io.ErrNoProgress) -> close,break-loop | default -> " := by
   refine ⟨by decide, by decide, ?_, rfl, rfl, rfl, rfl, rfl⟩
   intro first last
   constructor <;> simp [resolve, Gen.decoderFacts]
